@@ -66,15 +66,38 @@ def check(pid, tier, seed):
         jobs = []
         cfgs = [('sd_fwd', idx.cfg(Active='{1, 2}', MaxBlocks=3, MaxPerBlock=1)),
                 ('sd_reorg', idx.cfg(Active='{1}', MaxPerBlock=1, MaxForks=1, MaxForced=1, MaxRestarts=1,
-                                     FlushKinds='{"none", "full"}'))]
+                                     FlushKinds='{"none", "full"}')),
+                ('sd_mism', idx.cfg(Active='{}', MaxPerBlock=0, MaxBlocks=5, MaxForks=1, FlushKinds='{"none", "full"}'))]
         scns = []
+        mism = []
         for name, c in cfgs:
             got = idx.scenarios_from(sc, name, c, quick, seed, rng, out)
             got.sort(key=idx.interesting, reverse=True)
-            pick = got[:(4 if quick else 30)] + rng.sample(got[(4 if quick else 30):], min(len(got) - (4 if quick else 30), 2 if quick else 20)) \
+            pick = [] if name == 'sd_mism' else got[:(4 if quick else 30)] + rng.sample(got[(4 if quick else 30):], min(len(got) - (4 if quick else 30), 2 if quick else 20)) \
                 if len(got) > (4 if quick else 30) else got
             scns += [(evs, idx.params_of(c)) for evs in pick]
+            # a block that does not connect (the daemon reorganised during sync) arriving while finished blocks are
+            # still unflushed: the histories are cut right after it so that every cancellation point lies around it
+            cut = {}
+            for evs in got:
+                unflushed = False
+                for n, e in enumerate(evs):
+                    if e['e'] == 'advance':
+                        unflushed = e.get('flush') != 'full'
+                    elif e['e'] in ('caughtup', 'backedup', 'reopen'):
+                        unflushed = False
+                    elif e['e'] == 'mismatch':
+                        if unflushed:
+                            cut.setdefault(json.dumps(evs[:n + 2], sort_keys=True), evs[:n + 2])
+                        break
+            mism += [(evs, idx.params_of(c)) for evs in sorted(cut.values(), key=len)[:(40 if quick else 120)]]
         with ProcessPoolExecutor(max_workers=14) as ex:
+            # (of the cut histories keep those the server survives: a look-back reaching the genesis block kills it)
+            mdry = [t for t in ex.map(_run, [(evs, p, None, None) for evs, p in mism])
+                    if 'error' not in t and not any(s.get('ev') == 'died' for s in t['steps'])
+                    and any(s.get('ev') == 'cancel' for s in t['steps'])][:(2 if quick else 12)]
+            out.add(mismatch_scenarios=len(mdry))
+            scns += [(t['job']['events'], t['job']['params']) for t in mdry]
             dry = list(ex.map(_run, [(evs, p, None, None) for evs, p in scns]))
             bad = [t for t in dry if 'error' in t]
             if bad:
@@ -93,7 +116,7 @@ def check(pid, tier, seed):
             raise MachineryError(f'{len(errors)} executions failed in the harness, first:\n{errors[0]["error"]}\n{errors[0]["job"]}')
         keys = ('tree', 'activation', 'limit', 'steps')
         res, failures = validate_traces(sc, 'IndexTrace', 'IndexTrace.cfg', [{k: t[k] for k in keys} for t in traces],
-                                        workers=16, timeout=3000)
+                                        workers=16, timeout=3000, invariants=CLAUSES)
         ncancel = sum(1 for j in jobs if j[2] is not None)
         out.add(traces_validated_against_impl=len(traces), cancellation_points=ncancel, parked_flush_points=len(jobs) - ncancel,
                 scenarios=len(scns), trace_states=res.distinct)
@@ -126,7 +149,7 @@ def replay(doc):
         print({k: v for k, v in s.items() if k in ('ev', 'h', 'tip', 'hdrs', 'memh', 'memend', 'inreorg', 'at', 'job', 'op', 'exc')})
     keys = ('tree', 'activation', 'limit', 'steps')
     with Scratch('c06r') as sc:
-        _res, failures = validate_traces(sc, 'IndexTrace', 'IndexTrace.cfg', [{k: t[k] for k in keys}], workers=2)
+        _res, failures = validate_traces(sc, 'IndexTrace', 'IndexTrace.cfg', [{k: t[k] for k in keys}], workers=2, invariants=CLAUSES)
     failures = [f for f in failures if f['clause'] in CLAUSES]
     if failures:
         print(f"VIOLATION property={doc['property']} replay=(this file) clause={failures[0]['clause']}")
